@@ -137,6 +137,8 @@ pub mod fasta;
 pub mod fastq;
 pub mod parallel;
 pub mod policy;
+#[cfg(feature = "verif_hooks")]
+pub mod verif_hooks;
 
 /// Remove a final '\r' from a byte slice
 #[inline]
